@@ -28,6 +28,7 @@ import (
 
 type provRunner struct {
 	lastEvidence string
+	tc           *twoChain // attached consumer chain (two-chain stream)
 	script       []string // scripted follow-up operations of a directed scenario
 	lastMisb     string
 	t        *Trace
@@ -516,9 +517,13 @@ func (p *provRunner) Do(line string) {
 	if eff := w.env.takeEffects(w.ctx); len(eff) > 0 {
 		kv = append(kv, "effects", strings.ReplaceAll(strings.Join(eff, "|"), " ", "_"))
 	}
-	if sent := w.chk.takeSent(w.ctx); len(sent) > 0 {
-		kv = append(kv, "sent", p.fmtSent(sent))
-		p.sentLog = append(p.sentLog, sent...)
+	sentNow := w.chk.takeSent(w.ctx)
+	if len(sentNow) > 0 {
+		kv = append(kv, "sent", p.fmtSent(sentNow))
+		p.sentLog = append(p.sentLog, sentNow...)
+	}
+	if op.name == "end" {
+		p.twoChainRecord(sentNow)
 	}
 	p.t.obs("r", kv...)
 	p.emitState()
